@@ -69,6 +69,29 @@ let () =
            | None -> emit robs "H(OOB)"
            | Some b -> emit robs ("H" ^ b2s b));
           emit sobs ("H" ^ b2s (spec_get q !m <> None))
+        | 'l' | 'g' ->
+          (* explicit (pointer, length): the query is the first len bytes of the buffer *)
+          let body = after_colon tok in
+          let c2 = String.rindex body ':' in
+          let buf = key_of_hex (String.sub body 0 c2) in
+          let len = int_of_string (String.sub body (c2 + 1) (String.length body - c2 - 1)) in
+          let rec take n l = if n <= 0 then [] else match l with [] -> [] | x :: r -> x :: take (n - 1) r in
+          let q = take len buf in
+          if tok.[0] = 'l' then begin
+            (match value_of !t dflt (t_getLongest q !t) with
+             | None -> emit robs "L(OOB)"
+             | Some ((s, l), v) -> emit robs (Printf.sprintf "L(%s,%s,%s)" (b2s s) (zs l) (zs v)));
+            (match spec_getLongest q !m with
+             | None -> emit sobs "L(0,0,-7)"
+             | Some (l, v) -> emit sobs (Printf.sprintf "L(1,%s,%s)" (zs l) (zs v)))
+          end else begin
+            (match value_of !t dflt (t_get q !t) with
+             | None -> emit robs "G(OOB)"
+             | Some ((s, l), v) -> emit robs (Printf.sprintf "G(%s,%s)" (b2s s) (zs v)));
+            (match spec_get q !m with
+             | None -> emit sobs "G(0,-7)"
+             | Some v -> emit sobs (Printf.sprintf "G(1,%s)" (zs v)))
+          end
         | 'S' -> emit robs ("S" ^ zs (t_size !t)); emit sobs ("S" ^ zs (spec_size !m))
         | 'D' -> emit robs (dump !t); emit sobs "D_"
         | _ -> failwith ("bad token " ^ tok)) toks;
